@@ -68,7 +68,17 @@ def main():
     detected, details = [], {}
     if ok:
         # 3. apply to /repo, run the checks, revert
+        meta["repo_head_at_run"] = sh(["git", "-C", "/repo", "rev-parse", "--short", "HEAD"])[1].strip()
         rc, o = sh(["git", "-C", "/repo", "apply", os.path.join(dest, "patch.diff")])
+        if rc != 0:
+            # /repo has moved on since the change was written (later fix: commits): merge it
+            rc, o2 = sh(["git", "-C", "/repo", "apply", "--3way", os.path.join(dest, "patch.diff")])
+            sh(["git", "-C", "/repo", "reset", "-q"])
+            conflict = sh("git -C /repo diff | grep -c '^[+-]<<<<<<<\\|^+=======$'")[1].strip()
+            if rc != 0 or conflict not in ("0", ""):
+                sh(["git", "-C", "/repo", "checkout", "--", "."])
+                rc = 1
+            meta["applied_with_3way"] = (rc == 0)
         if rc != 0:
             meta["apply_error"] = o[-500:]
         else:
